@@ -227,9 +227,9 @@ def run_c13(tier: str, seed: int) -> int:
                 continue
             for c in cs:
                 trees.setdefault(C.json.dumps(c["tree"], sort_keys=True), c["tree"])
-        events = [str_event(tr) for tr in trees.values()]
         n_rand = 4000 if tier == "quick" else 60000
-        events += [str_event(r_tree(rnd, rnd.randrange(0, 5))) for _ in range(n_rand)]
+        alltrees = list(trees.values()) + [r_tree(rnd, rnd.randrange(0, 5)) for _ in range(n_rand)]
+        events = C.guarded_events(rep, str_event, alltrees, "str()/from_string() of a filter")
         # deep chains (the interpreter stack allows ~250 levels of str/from_string)
         for n in (10, 50, 120):
             tr: t.Dict[str, t.Any] = {"k": "eq", "attr": [99, 110], "v": [42, 41]}
@@ -339,13 +339,14 @@ def run_c15(tier: str, seed: int) -> int:
             n = rnd.choice((0, 1, 2, 3, 5, 8, 13, 30))
             texts.append("".join(rnd.choice(alphabet) if rnd.random() < 0.8 else msggen.r_char(rnd) for _ in range(n)))
         seen = set()
-        events = []
+        uniq = []
         for tx in texts:
             if tx in seen:
                 continue
             seen.add(tx)
             rep.case(tx[:300])
-            events.append(parse_event(tx))
+            uniq.append(tx)
+        events = C.guarded_events(rep, parse_event, uniq, "LDAPFilter.from_string()")
         validate(rep, wd, events, sigmap, "from_string(any text): total, error span inside the input, accepted names valid, result re-parses to itself")
         for e in events[:3]:
             rep.sample({"text": bytes(e["text"]).decode("utf-8", "replace"), "res": e["res"], "off": e["off"], "len": e["len"]})
